@@ -66,7 +66,7 @@ def parse_model(fields):
     return dom, resp, lex, legend
 
 
-def check_response(text, data, dom, lexemes, legend, lexer_rejects):
+def check_response(text, data, dom, lexemes, legend, lexer_rejects, impl_tokens=None):
     """the property on the server's answer.  data: list of ints, or None for a null result"""
     if lexer_rejects:
         if data is not None:
@@ -89,6 +89,23 @@ def check_response(text, data, dom, lexemes, legend, lexer_rejects):
             return "token type %d outside the legend" % d[3]
         prev = d
     if not dom:
+        # outside the model's domain (or without a model: the translator refused the source): the lexemes are those of the
+        # implementation's own tokenizer (whose positions C05 checks); the class is not compared
+        if impl_tokens is None:
+            return None
+        bypos = {}
+        for t in impl_tokens:
+            tb = bytes.fromhex(t[5])
+            if t[0] in ("Whitespace", "Newline") or not tb:
+                continue
+            tx = tb.decode("utf-8", "replace")
+            bypos[(t[3], t[4])] = (t[0], {len(tb), len(tx), len(tx.encode("utf-16-le")) // 2})
+        for d in dec:
+            le = bypos.get((d[0], d[1]))
+            if le is None:
+                return "decoded range line %d start %d length %d does not start at a lexeme of the document" % (d[0], d[1], d[2])
+            if d[2] not in le[1]:
+                return "decoded range at %d:%d has length %d, the %s lexeme there has %s" % (d[0], d[1], d[2], le[0], sorted(le[1]))
         return None
     # every decoded range is exactly one lexeme with an acceptable class, in order; every must-lexeme appears
     bypos = {}
@@ -222,7 +239,7 @@ def search(run, info):
                 dom, mresp, lexemes, legend = False, None, [], ["variable", "keyword", "modifier", "comment", "string", "operator"]
             if lexer_rejects is None:
                 continue
-            fail = check_response(t, data, dom, lexemes, legend, lexer_rejects)
+            fail = check_response(t, data, dom, lexemes, legend, lexer_rejects, it.get("tokens"))
             if fail:
                 upto = next((i for i, mm in enumerate(msgs) if mm.get("id") == rid), len(msgs) - 1)
                 run.violation("impl-violates-property", fail,
